@@ -20,7 +20,7 @@ ASSUMPTIONS = c02.ASSUMPTIONS[:3] + [
     'bounded liveness: "eventually" = within the computed bound (sum of scripted delays, cancellation backoffs/timeouts, polling) after the last action',
     'matching is by a label criterion only (C15 covers the criteria themselves)',
 ]
-BUDGET = {'quick': 40, 'thorough': 1000}
+BUDGET = {'quick': 120, 'thorough': 1000}
 FIN = cl.FINALIZER
 FINDING_O = 'C06-O-carried-over-release-ignores-new-match'
 
